@@ -354,6 +354,8 @@ class FedSim(object):
     def __init__(self, scenario):
         self.sc = scenario
         self.world = World(scenario["seed"], scenario.get("tz"))
+        if scenario.get("tool_version"):
+            self.world.tool.version_banner = ("xmlsec1 %s (verif-sim)\n" % scenario["tool_version"]).encode()
         self.truth = {s["name"]: copy.deepcopy(s) for s in scenario["nodes"]}
         self.views = copy.deepcopy(scenario.get("views") or {})
         self.nodes = {}
@@ -1008,6 +1010,13 @@ class FedSim(object):
         if "session_nooa" in d and a.authn_statement:
             a.authn_statement[0].session_not_on_or_after = \
                 None if d["session_nooa"] is None else ts(d["session_nooa"])
+        if d.get("second_authn") and a.authn_statement:
+            # one more AuthnStatement (saml-core allows several) with a session bound of its own
+            import copy as _copy
+            st2 = _copy.deepcopy(a.authn_statement[0])
+            st2.session_not_on_or_after = ts(d["second_authn"]["session_nooa"])
+            st2.session_index = "id-second-statement"
+            a.authn_statement.append(st2)
         if "issue_instant" in d:
             resp.issue_instant = ts(d["issue_instant"])
         if "resp_irt" in d:
@@ -1085,6 +1094,21 @@ class FedSim(object):
                 a2 = other.assertion[0] if isinstance(other.assertion, list) else other.assertion
                 robj = response_from_string(doc)
                 to_sign = []
+                if pn.get("signed") == "other-key":
+                    # the second assertion names this IdP as Issuer but is signed with somebody else's key (whose
+                    # certificate it carries): trusted only under the keys of the Issuer it names
+                    ok_ = int(pn.get("key", 9))
+                    a2.signature = pre_signature_part(a2.id, cert_b64(ok_), 2, sign_alg=p.get("sigalg"),
+                                                      digest_alg=p.get("digalg"))
+                    if pn.get("where") == "wrapper":
+                        robj.encrypted_assertion[0].add_extension_element(a2)
+                    else:
+                        robj.assertion = [a2]
+                    self.count("dialect.plain-twin-signed-with-other-key")
+                    out_ = sec.sign_statement("%s" % robj, node_name=class_name(a2), key_file=key_file(ok_), node_id=a2.id)
+                    if sign_r:
+                        out_ = signed_instance_factory(out_, sec, [(class_name(robj), robj.id)])
+                    return out_
                 if pn.get("signed"):
                     a2.signature = pre_signature_part(a2.id, sec.my_cert, 2, sign_alg=p.get("sigalg"),
                                                       digest_alg=p.get("digalg"))
